@@ -35,6 +35,54 @@ Lemma serde_defaults_documented :
     "SPDCConfig.periodic_poling" ].
 Proof. reflexivity. Qed.
 
+(* what an omitted field means: the generated table (serde(default) + the type's Default) is the documented one *)
+Lemma serde_omitted_documented : serde_omitted_values = spec_omitted_values.
+Proof. reflexivity. Qed.
+
+(* EVERY serde-relevant attribute of every configuration type / field / variant, pinned exactly: no skip_serializing, no
+   default = "fn", no rename, no flatten, no field added or removed -- otherwise this lemma stops holding *)
+Lemma serde_attributes_documented :
+  serde_attributes =
+  [ ("AutoCalcParam", "derive(Debug,Clone,Serialize,Deserialize,PartialEq); serde(untagged)");
+    ("AutoCalcParam.Auto", ""); ("AutoCalcParam.Param", "");
+    ("CrystalConfig", "serde_as; derive(Debug,Clone,Serialize,Deserialize,PartialEq)");
+    ("CrystalConfig.kind", ""); ("CrystalConfig.pm_type", "serde_as(as=""DisplayFromStr"")");
+    ("CrystalConfig.phi_deg", "serde(default)"); ("CrystalConfig.theta_deg", "serde(default)");
+    ("CrystalConfig.length_um", ""); ("CrystalConfig.temperature_c", ""); ("CrystalConfig.counter_propagation", "serde(default)");
+    ("PumpConfig", "derive(Debug,Clone,Serialize,Deserialize,PartialEq)");
+    ("PumpConfig.wavelength_nm", ""); ("PumpConfig.waist_um", ""); ("PumpConfig.bandwidth_nm", "");
+    ("PumpConfig.average_power_mw", ""); ("PumpConfig.spectrum_threshold", "");
+    ("SignalConfig", "derive(Debug,Clone,Serialize,Deserialize,PartialEq)");
+    ("SignalConfig.wavelength_nm", ""); ("SignalConfig.phi_deg", "serde(default)"); ("SignalConfig.theta_deg", "");
+    ("SignalConfig.theta_external_deg", ""); ("SignalConfig.waist_um", ""); ("SignalConfig.waist_position_um", "serde(default)");
+    ("IdlerConfig", "derive(Debug,Clone,Serialize,Deserialize,PartialEq)");
+    ("IdlerConfig.wavelength_nm", ""); ("IdlerConfig.phi_deg", "serde(default)"); ("IdlerConfig.theta_deg", "");
+    ("IdlerConfig.theta_external_deg", ""); ("IdlerConfig.waist_um", ""); ("IdlerConfig.waist_position_um", "serde(default)");
+    ("SPDCConfig", "derive(Debug,Clone,Serialize,Deserialize,PartialEq)");
+    ("SPDCConfig.crystal", ""); ("SPDCConfig.pump", ""); ("SPDCConfig.signal", ""); ("SPDCConfig.idler", "serde(default)");
+    ("SPDCConfig.periodic_poling", "serde(default)"); ("SPDCConfig.deff_pm_per_volt", "");
+    ("PeriodicPolingConfig", "derive(Debug,Clone,Serialize,Deserialize,PartialEq,Default); serde(untagged)");
+    ("PeriodicPolingConfig.Off", "serde(alias=""off"",alias=""none"",alias=""None""); default");
+    ("PeriodicPolingConfig.Config", ""); ("PeriodicPolingConfig.Config.poling_period_um", "");
+    ("PeriodicPolingConfig.Config.apodization", "serde(default)");
+    ("ApodizationConfig", "derive(Debug,Clone,Serialize,Deserialize,PartialEq,Default); serde(tag=""kind"",content=""parameter"")");
+    ("ApodizationConfig.Off", "serde(alias=""off"",alias=""none"",alias=""None""); default");
+    ("ApodizationConfig.Gaussian", "serde(alias=""gaussian"",alias=""Gaussian"")"); ("ApodizationConfig.Gaussian.fwhm_um", "");
+    ("ApodizationConfig.Bartlett", "serde(alias=""bartlett"",alias=""Bartlett"")");
+    ("ApodizationConfig.Blackman", "serde(alias=""blackman"",alias=""Blackman"")");
+    ("ApodizationConfig.Connes", "serde(alias=""connes"",alias=""Connes"")");
+    ("ApodizationConfig.Cosine", "serde(alias=""cosine"",alias=""Cosine"")");
+    ("ApodizationConfig.Hamming", "serde(alias=""hamming"",alias=""Hamming"")");
+    ("ApodizationConfig.Welch", "serde(alias=""welch"",alias=""Welch"")");
+    ("ApodizationConfig.Interpolate", "serde(alias=""interpolate"",alias=""Interpolate"")") ].
+Proof. reflexivity. Qed.
+
+(* the standalone From<SPDC> for PumpConfig / SignalConfig / IdlerConfig are the corresponding parts of From<SPDC> for SPDCConfig *)
+Lemma standalone_conversions num (o : NumOps num) U (s : spdc num) :
+  pump_as_config o U s = c_pump (as_config o U s) /\ signal_as_config o s = c_signal (as_config o U s) /\
+  Param (idler_as_config o s) = c_idler (as_config o U s).
+Proof. repeat split; reflexivity. Qed.
+
 (* the model's treatment of an omitted threshold is the documented default *)
 Lemma omitted_threshold_is_default num (o : NumOps num) U K minpos rj (c : spdc_cfg num) s nf :
   pc_threshold (c_pump c) = None -> try_as_spdc_steps o U K minpos rj c = Ok (s, nf) -> s_threshold s = nQ o spec_spectrum_threshold.
